@@ -93,8 +93,19 @@ def worldOfJson (j : Json) : Except String (World × ResTab) := do
         | _ => throw "bad protocol entry"
       pure (some l)
   let tab ← (← getArr j "resolve").mapM resRowOfJson
+  -- optional: [[folderLoc, entryName, loc], …] — the entries of the listed folders themselves
+  let childTab ← match j.getObjVal? "child_loc" with
+    | .ok v => do
+      let a ← v.getArr?
+      a.toList.mapM fun e => do
+        let x ← e.getArr?
+        match x.toList with
+        | [l, n, r] => do pure ((← l.getNat?, (← n.getStr?).toList), ← r.getNat?)
+        | _ => throw "bad child_loc row"
+    | .error _ => pure []
   let w : World := { nodes := nodes, protocols := protocols,
-                     resolve := fun h s src => (resLookup tab h s src).getD none }
+                     resolve := fun h s src => (resLookup tab h s src).getD none,
+                     childLoc := fun l n => (childTab.find? (fun e => e.1 == (l, n))).map (·.2) }
   pure (w, tab)
 
 /-- every question the run can put to the resolution table -/
